@@ -52,17 +52,19 @@ Accept(e, pq) ==
     IN \A f \in DOMAIN c : c[f]
 
 (* Per-index events at huge list sizes ("ShuffleIdx"): PermuteIndex / UnpermuteIndex of a few indices of a list of   *)
-(* up to 2^31 - 1 entries; hw holds <<<<round, window>>, pre-image, digest>> for the windows those indices need.     *)
+(* up to 2^31 - 1 entries; hw[r] holds <<window, pre-image, digest>> for the windows those indices need in round r.*)
 IdxLayoutOK(e) ==
     /\ Len(e.seed) = 32 /\ Len(e.hp) = e.rounds
     /\ \A r \in 1 .. e.rounds : e.hp[r][1] = PivotPre(e.seed, r - 1) /\ Len(e.hp[r][2]) = 32
-    /\ \A q \in 1 .. Len(e.hw) : e.hw[q][2] = SourcePre(e.seed, e.hw[q][1][1], e.hw[q][1][2]) /\ Len(e.hw[q][3]) = 32
+    /\ Len(e.hw) = e.rounds
+    /\ \A r \in 1 .. e.rounds : \A q \in 1 .. Len(e.hw[r]) :
+          e.hw[r][q][2] = SourcePre(e.seed, r - 1, e.hw[r][q][1]) /\ Len(e.hw[r][q][3]) = 32
 
 IdxChecks(e) ==
     LET n == e.n
         R == e.rounds
         piv == TLCEval([r \in 0 .. R - 1 |-> PivotOfBig(e.hp[r + 1][2], n)])
-        src(r, w) == e.hw[CHOOSE q \in 1 .. Len(e.hw) : e.hw[q][1] = << r, w >>][3]
+        src(r, w) == e.hw[r + 1][CHOOSE q \in 1 .. Len(e.hw[r + 1]) : e.hw[r + 1][q][1] = w][3]
         bit == [r \in 0 .. R - 1 |-> [pos \in 0 .. n - 1 |-> BitOf(src(r, pos \div 256), pos)]]
     IN [panic  |-> ~("panic" \in DOMAIN e),
         perm   |-> /\ Len(e.perm) = Len(e.indices)
